@@ -460,6 +460,7 @@ def term(ctx):
         index[(ent['func'], ent['test'], ent.get('index', 0))] = ent
     used = set()
     obs = []
+    undecided = []
     nwhile = nfor = 0
     for q in sorted(R):
         fi = ctx.m.functions[q]
@@ -498,8 +499,11 @@ def term(ctx):
             ent = index.get((q, t, i))
             key = '%s|while %s#%d' % (q, t, i)
             if ent is None:
-                obs.append(Ob('SA-TERM', key, False, ctx.loc(fi, loop),
-                              'unclassified `while` loop reachable from open(): no progress idiom has been established for it'))
+                why = _auto_counter(ctx, fi, g, loop, head)
+                if why is None:
+                    obs.append(Ob('SA-TERM', key, True, ctx.loc(fi, loop), 'bounded counter loop (recognised automatically)'))
+                else:
+                    undecided.append('%s (%s)' % (key, why))
                 continue
             used.add((q, t, i))
             idiom = ent['idiom']
@@ -528,9 +532,52 @@ def term(ctx):
     for k, ent in index.items():
         if k not in used:
             raise AnalysisError('anchor-vanished: loop %s `%s`#%d of the loops table is no longer reachable from open' % k)
+    if undecided:
+        # a loop that is not in the table and is not a plain bounded counter: termination is not decided either way
+        # (neither a violation nor a pass: the check says it cannot decide)
+        raise AnalysisError('undecided: `while` loop(s) reachable from open() with no established progress argument: ' + '; '.join(undecided))
     if nwhile < 15 or nfor < 30:
         raise AnalysisError('anchor-vanished: %d while / %d for loops reachable from open' % (nwhile, nfor))
     return obs
+
+
+def _auto_counter(ctx, fi, g, loop, head):
+    """None if `loop` is `while V < E` / `V <= E` (or > / >= downwards) over a local V that every cycle moves
+    by a constant of the right sign, V and the names of E not being assigned elsewhere in the loop; else the reason."""
+    t = loop.test
+    if not (isinstance(t, ast.Compare) and len(t.ops) == 1 and isinstance(t.left, ast.Name)):
+        return 'test is not `name <cmp> bound`'
+    v = t.left.id
+    op = t.ops[0]
+    if isinstance(op, (ast.Lt, ast.LtE)):
+        sign = 1
+    elif isinstance(op, (ast.Gt, ast.GtE)):
+        sign = -1
+    else:
+        return 'comparison is not an ordering'
+    bound_names = set(x.id for x in ast.walk(t.comparators[0]) if isinstance(x, ast.Name))
+    if v in bound_names:
+        return 'bound mentions the counter'
+    steps = []
+    for n in ast.walk(loop):
+        if isinstance(n, (ast.Assign, ast.AugAssign, ast.For)):
+            tg = n.targets if isinstance(n, ast.Assign) else [n.target]
+            names = [nm for x in tg for nm in cfgmod.target_names(x)]
+            if any(nm in bound_names for nm in names):
+                return 'bound is modified inside the loop'
+            if v in names:
+                ok = isinstance(n, ast.AugAssign) and isinstance(n.value, ast.Constant) and isinstance(n.value.value, int) and n.value.value > 0 and \
+                    ((isinstance(n.op, ast.Add) and sign == 1) or (isinstance(n.op, ast.Sub) and sign == -1))
+                if not ok:
+                    return 'counter is assigned by `%s`' % norm(n)[:40]
+                steps.append(n)
+    if not steps:
+        return 'counter never moves'
+    nodes = [g.node_of(st) for st in steps]
+    nodes = [n for n in nodes if n is not None]
+    if not nodes or not _cycle_must_pass(ctx, fi, g, head, nodes):
+        return 'a cycle through the body does not move the counter'
+    return None
 
 
 def _check_not_image_driven(ctx, R, fi):
